@@ -22,13 +22,16 @@ def sh(args, cwd, timeout=900):
     p = subprocess.run(args, cwd=cwd, env=env, capture_output=True, text=True, timeout=timeout)
     return p.returncode, (p.stdout + p.stderr)
 
+tags = ["-tags", "verif"] if re.search(r"-tags[ =]verif|//go:build verif", open(os.path.join(src, demo)).read() + (open(os.path.join(src, "notes.md")).read() if os.path.exists(os.path.join(src, "notes.md")) else "")) else []
+res["demo_tags"] = " ".join(tags)
+
 def demo_run(wt):
     dst = os.path.join(wt, place, "zz_seed_demo_test.go")
     shutil.copy(os.path.join(src, demo), dst)
     try:
-        rc, out = sh(["go", "test", "-vet=off", "-count=1", "-timeout", "120s", "-run", "Demo|Seed|Violation|C[0-9][0-9]", pkg], wt)
+        rc, out = sh(["go", "test", "-vet=off", "-count=1", "-timeout", "120s"] + tags + ["-run", "Demo|Seed|Violation|C[0-9][0-9]", pkg], wt)
         if "no tests to run" in out:
-            rc, out = sh(["go", "test", "-vet=off", "-count=1", "-timeout", "180s", pkg], wt)
+            rc, out = sh(["go", "test", "-vet=off", "-count=1", "-timeout", "180s"] + tags + [pkg], wt)
         return rc, out
     finally:
         os.remove(dst)
